@@ -160,6 +160,10 @@ func buildReplies(toks []string) (msgs [][]byte, nonces [][]byte, capMask []byte
 						b = append(append([]byte{}, pemKey...), "trailing"...)
 					case v == "kw": // nothing but white space
 						b = []byte(" \n\t\r\n")
+					case v == "kl": // a line break, nothing else
+						b = []byte("\n")
+					case v == "kz": // line break and a NUL byte
+						b = []byte("\r\n\x00")
 					case v == "kn": // a key followed by blank lines
 						b = append(append([]byte{}, pemKey...), "\n\n"...)
 					case v == "kh": // the first half of a key
@@ -210,6 +214,11 @@ func buildReplies(toks []string) (msgs [][]byte, nonces [][]byte, capMask []byte
 			// replies that leave a capability type out: the client keeps its empty default mask for that
 			// type, which counts as "not understood" like an explicit all-zero mask
 			types := map[byte][]byte{1: req, 2: res}
+			if arg == "okz" {
+				// a valid reply that also lists the security type with a mask of length zero
+				req[13], req[5], res[6] = 0x02, 0x40, 0x02
+				types[3] = []byte{}
+			}
 			switch arg {
 			case "noreq", "nores", "empty":
 				req[13], req[5], res[6] = 0x02, 0x40, 0x02
@@ -444,7 +453,10 @@ func acceptsScript(enc, hostlen, pwlen int, toks []string) bool {
 			break
 		}
 	}
-	return next() == "cap:ok" && next() == "dn:0"
+	if c := next(); c != "cap:ok" && c != "cap:okz" {
+		return false
+	}
+	return next() == "dn:0"
 }
 
 func loginImpl(line string) string {
@@ -481,7 +493,7 @@ func loginImpl(line string) string {
 }
 
 var loginEdits = []string{"la:5", "la:6", "la:7", "dn:0", "dn:2", "dn:1", "dn:16", "msg:35", "msg:31", "msg:1", "pf:ill", "pf:il", "pf:illl", "pf:lli", "pf:ivl", "pf:ibl", "pf:ilb", "pf:ibb",
-	"pm:i1,k,n16", "pm:i2,k,n16", "pm:i1,kb,n16", "pm:i1,kt,n16", "pm:i1,kw,n16", "pm:i1,kn,n16", "pm:i1,kh,n16", "pm:i1,k,n0", "pm:i1,e,n16", "pm:i1,k,n60", "cap:ok", "cap:zero", "cap:noreq", "cap:nores", "cap:empty", "eed", "ot", "|"}
+	"pm:i1,k,n16", "pm:i2,k,n16", "pm:i1,kb,n16", "pm:i1,kt,n16", "pm:i1,kw,n16", "pm:i1,kl,n16", "pm:i1,kz,n16", "pm:i1,kn,n16", "pm:i1,kh,n16", "pm:i1,k,n0", "pm:i1,e,n16", "pm:i1,k,n60", "cap:ok", "cap:okz", "cap:zero", "cap:noreq", "cap:nores", "cap:empty", "eed", "ot", "|"}
 
 func pmFor(pf string, rng *mrand.Rand) string {
 	var vals []string
@@ -533,7 +545,7 @@ func fixScript(toks []string, rng *mrand.Rand) []string {
 					case 'i':
 						okv = okv && strings.HasPrefix(v, "i")
 					case 'l':
-						okv = okv && (v == "k" || v == "kb" || v == "kt" || v == "kw" || v == "kn" || v == "kh" || v == "e" || strings.HasPrefix(v, "n"))
+						okv = okv && (v == "k" || v == "kb" || v == "kt" || v == "kw" || v == "kl" || v == "kz" || v == "kn" || v == "kh" || v == "e" || strings.HasPrefix(v, "n"))
 					case 'v':
 						okv = okv && v == "v"
 					case 'b':
